@@ -80,3 +80,8 @@ claim("C19", "Fault enumeration driven by PBT (rapid): for each generated (query
       "For each generated query and clause position the fault-free run counts N invocations and every k in 1..N (cap 64) is executed with the function failing at k; New/Exec must return an error and no rows, and follow-up queries on the same input object must behave as on a pristine copy.",
       "Positions where the engine rejects function calls (join ON, aggregate arguments under GROUP BY) cannot carry a fault and are discarded (counted); only synchronous calls, per the statement.",
       "DESIGN.md 4/C19", category="fault_enumeration")
+
+claim("C14", "PBT (rapid) with harness-owned completion schedules: generated select lists of instrumented functions under none/ASYNC/SPINASYNC/SPIN/ONCE, release permutation enforced through a gate; observations at Exec return (invocation/completion counters) + reference values + metamorphic qualified-vs-unqualified equality; a shard under the race detector",
+      "Generated-input search in which the harness owns the completion order of all asynchronous calls (arrival, reversed, random permutations); counters are read the moment Exec returns; held on everything explored. Goroutine schedules beyond the completion order are sampled, not enumerated.",
+      "No LIMIT/OFFSET; ONCE with constant arguments; failing ASYNC functions are C10's domain.",
+      "DESIGN.md 4/C14")
